@@ -973,6 +973,11 @@ def subscript(interp, base, idx, st, node):
             from .api_numpy import shape_terms
 
             return V("arr", T("reshape1", base.term.args[0], *shape_terms((base.shape[1],))), shape=(base.shape[1],), orig=base.orig, labels=labels, loc=base.loc, extra=base.extra if isinstance(base.extra, str) else None)
+        if idx.kind == "tuple" and idx.items is not None and len(idx.items) == 2 and len(base.shape) == 2 and base.shape[1].is_const() and base.shape[1].c == 1 and idx.items[0].kind == "slice" and all(x.kind == "none" for x in idx.items[0].items) and idx.items[1].has_const and isinstance(idx.items[1].const, int) and not isinstance(idx.items[1].const, bool) and idx.items[1].const in (0, -1):
+            # the only column of an (n, 1) matrix: the matrix as a vector (a view)
+            from .api_numpy import shape_terms
+
+            return V("arr", T("reshape1", base.term, *shape_terms((base.shape[0],))), shape=(base.shape[0],), orig=base.orig, labels=labels, loc=base.loc, extra=base.extra if isinstance(base.extra, str) else None)
         if idx.kind == "int" and len(base.shape) == 2 and isinstance(base.term, Term) and base.term.op in _ELEMENTWISE and hasattr(interp, "vtab") and not __import__("os").environ.get("VERIF_NO_PUSH"):
             # row k of an elementwise expression over broadcast operands: index the operands that have that row axis,
             # keep those that are broadcast along it (f(s, a.reshape(-1, 1))[k] = f(s, a[k]))
